@@ -998,6 +998,19 @@ func (c *specCtx) call(n *ast.CallExpr) (sv, error) {
 			return c.mk(a.T, ite(lt, b.S, a.S)), nil
 		}
 		return c.mk(a.T, ite(lt, a.S, b.S)), nil
+	case "bits":
+		// bit pattern of a float (floats are opaque bit patterns, DESIGN §2.6.3)
+		v, err := c.eval(args[0])
+		if err != nil {
+			return sv{}, err
+		}
+		if w, ok := isFloat(v.T); ok {
+			if w == 32 {
+				return c.mk(types.Typ[types.Uint32], v.S), nil
+			}
+			return c.mk(types.Typ[types.Uint64], v.S), nil
+		}
+		return sv{}, c.errf("bits() of non-float")
 	case "haskey":
 		m, err := c.eval(args[0])
 		if err != nil {
